@@ -63,7 +63,8 @@ def build_motl(parts, rng, real=False):
         cols["object_id"][i] = 1 + (i % 3)
         cols["class"][i] = 1
         cols["score"][i] = 0.1 * (i + 1)
-    return cryomotl.Motl(motlutil.df_from_cols(cols))
+    # row labels are not part of a particle list: default, permuted or gapped labels must give the same analysis
+    return cryomotl.Motl(motlutil.vary_index(motlutil.df_from_cols(cols), rng.randrange(1000)))
 
 
 def rows_by_query(table):
